@@ -54,7 +54,7 @@ m = {
    "guard": "verif",
    "enable": "go build -tags verif (the harness module replaces github.com/philpearl/plenc with /repo)",
    "baseline_off_cmd": "cd /repo && GOFLAGS=-mod=mod GOPROXY=off GOSUMDB=off go test -vet=off -count=1 ./...",
-   "source_commits": ["3109977", "8124b21", "1caa1db", "c446174", "0740df2"],
+   "source_commits": ["3109977", "8124b21", "1caa1db", "c446174", "0740df2", "adb4e9f"],
    "add_only": True
  },
  "engines": [{"name": "lean-proof+correspondence", "path": "/verif/check", "serves_properties": sorted(claimed),
